@@ -463,8 +463,8 @@ def gen_cfg(rng):
     tight = rng.random() < 0.25
     return {'delay': delay,
             'maxobjects': rng.choice([1, 2, 3, 4]) if tight and rng.random() < 0.6 else 1000,
-            'maxobj_size': rng.choice([13, 21, 41]) if tight and rng.random() < 0.5 else 100000,
-            'maxsize': rng.choice([30, 45, 70, 100]) if tight and rng.random() < 0.6 else 10000000}
+            'maxobj_size': rng.choice([12, 13, 20, 21, 40]) if tight and rng.random() < 0.5 else 100000,
+            'maxsize': rng.choice([24, 32, 33, 40, 52, 60, 100]) if tight and rng.random() < 0.6 else 10000000}
 
 
 def gen_cc(rng, delay):
@@ -639,15 +639,15 @@ def check_cases(ctx, cases, compare=True, procs=None):
                 continue          # the oracle already speaks for this case
             if mtoks != r['toks'] or mtail != r['tail']:
                 first = next((i for i, (a, b) in enumerate(zip(r['toks'], mtoks)) if a != b), None)
-                if first is not None and len(ctx.disagreements) == 0:
+                what = ('cache outcomes differ (first at op %s of the unshrunk history)' % first
+                        if first is not None else 'final cache accounting (cursize / stored responses) differs')
+                if len(ctx.disagreements) == 0:
                     small = shrink_case(case, lambda c: _differs(ctx, c))
                     rs = _examine(small)
                     ms = canon_model(ctx.model([model_line(small)])[0])
-                    ctx.disagree(small, ' '.join(rs['toks']) + ' ' + rs['tail'], ' '.join(ms[0]) + ' ' + ms[1],
-                                 'cache outcomes differ (first at op %s of the unshrunk history)' % first)
+                    ctx.disagree(small, ' '.join(rs['toks']) + ' ' + rs['tail'], ' '.join(ms[0]) + ' ' + ms[1], what)
                 else:
-                    ctx.disagree(case, ' '.join(r['toks']) + ' ' + r['tail'], ' '.join(mtoks) + ' ' + mtail,
-                                 'cache outcomes differ' if first is not None else 'final cache accounting differs')
+                    ctx.disagree(case, ' '.join(r['toks']) + ' ' + r['tail'], ' '.join(mtoks) + ' ' + mtail, what)
 
 
 def _differs(ctx, case):
@@ -656,7 +656,7 @@ def _differs(ctx, case):
         if r['bad']:
             return False
         m = canon_model(ctx.model([model_line(case)])[0])
-        return m[0] != r['toks']
+        return m[0] != r['toks'] or m[1] != r['tail']
     except common.HarnessError:
         raise
     except Exception:
